@@ -190,6 +190,10 @@ def artefact_case(case):
             for nm, got in outs:
                 if [tuple(b) for b in got.bitstrings] != shots or any(not isinstance(b, tuple) for b in got.bitstrings):
                     return {"ok": False, "msg": "measurements (%s): bitstrings changed" % nm, "expected": str(shots), "observed": str(got.bitstrings), "sig": "measurements"}
+                # "equal" for an object without __eq__: the loaded set answers every query like the saved one
+                if got.get_counts() != m.get_counts() or any(type(x) is not int for b in got.bitstrings for x in b):
+                    return {"ok": False, "msg": "measurements (%s): the loaded set reports other counts / holds non-int entries" % nm, "expected": str(m.get_counts())[:300],
+                            "observed": str(got.get_counts())[:300], "sig": "measurements:counts"}
             nt = bool(shots)
         elif kind == "expectation_values":
             vals = arr(case["values"])
@@ -320,19 +324,26 @@ def A(re, im=None, dtype=None):
 
 
 def artefacts():
-    out = [{"kind": "measurements", "shots": s} for s in ([], [[0]], [[1, 0, 1]], [[0, 1], [1, 1], [0, 1]], [[0] * 12] * 3 + [[1] * 12])]
+    out = [{"kind": "measurements", "shots": s} for s in ([], [[0]], [[1, 0, 1]], [[0, 1], [1, 1], [0, 1]], [[0] * 12] * 3 + [[1] * 12],
+                                                          [[1, 0]] * 150 + [[0, 1]] * 151 + [[1, 1]], [[0] * 69 + [1], [1] + [0] * 69, [0] * 69 + [1]],
+                                                          [[(i >> b) & 1 for b in range(5)] for i in range(32)], [[2, 0, 13], [0, 2, 13]])]
     vals = [A([0.5, -1.25, 3.0]), A([0.5, -1.0], [0.25, 0.0]), A([1e-09]), A([0.0, 0.0], [0.0, 0.0]), A([])]
     f1 = A([[1.0, 0.5], [0.5, 1.0]])
     f2 = A([[0.25]])
     fc = A([[1.0, 0.5], [0.5, 1.0]], [[0.0, -0.5], [0.5, 0.0]])
-    frames = [None, [], [f1], [f1, f2], [fc], [fc, f1]]
+    f3 = A([[0.0, -1.0, 2.0], [-1.0, 0.5, 0.0], [2.0, 0.0, 1e-12]])
+    f4 = A([[2.0, -0.5], [-0.5, 2.0]])
+    frames = [None, [], [f1], [f1, f2], [fc], [fc, f1], [f2, f1, f3], [f1, f4, f2, f3, fc]]   # up to five distinct frames: count and order are observable
     for v in vals[:4]:
         for cor in frames:
             for cov in frames:
                 out.append({"kind": "expectation_values", "values": v, "cor": cor, "cov": cov})
     pv = A([[3, 1], [0, 4]], dtype="int")
     pc = A([[[4, 0], [2, 2]], [[2, 2], [4, 0]]], dtype="int")
-    out += [{"kind": "parities", "values": pv, "cor": c} for c in (None, [], [pc], [pc, pc])]
+    pc2 = A([[[1, 3], [0, 4]], [[0, 4], [1, 3]]], dtype="int")
+    pc3 = A([[[7, 0]]], dtype="int")
+    out += [{"kind": "parities", "values": pv, "cor": c} for c in (None, [], [pc], [pc, pc], [pc2, pc], [pc, pc2, pc3], [pc3, pc2, pc, pc2])]
+    out += [{"kind": "parities", "values": A([[0, 0]], dtype="int"), "cor": c} for c in (None, [pc3])] + [{"kind": "parities", "values": A([[10**12, 1], [5, 0], [2, 2]], dtype="int"), "cor": None}]
     out += [{"kind": "value_estimate", "value": v, "precision": p} for v in (1.5, -0.25, 0.0, 1e-12, 3) for p in (None, 0.1, 0.0, ["np", 0.01], 2)]
     out += [{"kind": "list", "list": l} for l in ([], [1, 2.5, -3], ["a", "b"], [[1, 2], [3]], [0.1, [0.2, ["x"]]], [None, True])]
     out += [{"kind": "layers", "layers": l} for l in ([], [[[0, 1], [2, 3]], [[1, 2]]], [[[0, 1, 2]]], [[], [[4, 5]]])]
